@@ -2,27 +2,45 @@
 C02 — all CommonMark 0.30 normative examples render exactly as specified.
 
 The quantifier is the finite corpus (652 examples, vendored in /verif/corpus so that it cannot
-drift with the tree under test): every run enumerates it completely on the implementation
-(HtmlRenderer with html_escape_double_quotes=True) and compares with the expected HTML under the
-specification's own normalisation (harness/specnorm.py).
+drift with the tree under test).
+
+Proof: `Props/C02.lean` — the Lean model of Document(text) + HtmlRenderer(html_escape_double_quotes=
+True).render, under the token lists regenerated from /repo, is evaluated BY THE KERNEL on every
+example (`decide +kernel`, 32 chunk files under Proofs/Corpus/, no axioms) and returns the expected
+HTML byte for byte (`C02_corpus`); the corpus is complete (`C02_corpus_complete`).
+
+Tie to the code (units):
+  * `corpus.data`   the Lean corpus the theorem quantifies over (driver op corpus.dump) equals the
+                    vendored spec.json, field for field;
+  * `corpus.run`    the very function the theorem evaluates (`SpecCheck.run`, through the native
+                    driver) against the real HtmlRenderer on all 652 examples;
+  * `doc`           the real Document(text) token tree (every attribute, line numbers, definitions) and
+                    HTML against the model on all 652 examples under the three HTML option sets, and
+                    on mutations of the examples (so that the agreement is not an accident of the corpus).
+Exploration: every example on the implementation, compared with the expected HTML under the
+specification's own normalisation (harness/specnorm.py) — this is what decides a violation.
 """
 import common
+import doc_units
 import gen_docs
 import impl
 import specnorm
+from common import driver_batch
 
 ID = 'C02'
-LEVEL = 'exploration'
 EXHAUSTIVE = True
+EXTRA_MODULES = ['Mistletoe.Gen.Corpus'] + ['Mistletoe.Proofs.Corpus.P%02d' % k for k in range(32)]
 RULE = ('the complete normative corpus of CommonMark 0.30 (652 examples in 26 sections), enumerated exhaustively on every '
-        'run; each example is distinct; all are non-trivial (each is a normative boundary case)')
-TRUSTED = ['harness/specnorm.py re-implements the normalisation of the specification\'s test driver',
+        'run; each example is distinct; all are non-trivial (each is a normative boundary case). Correspondence also on '
+        'seeded mutations of the examples')
+TRUSTED = ['harness/specnorm.py re-implements the normalisation of the specification\'s test driver (used only when '
+           'the implementation output is not byte-identical to the expected HTML)',
            'the corpus under /verif/corpus/spec-0.30.json is the specification\'s spec.json (copied once from the '
-           'repository\'s vendored copy; never read from /repo at check time)']
-ASSUMPTIONS = []
-PARTIAL = ['interim level: exhaustive enumeration on the implementation. The Lean theorem `C02_corpus` (the model '
-           'renders every example as specified, by kernel evaluation) and the doc/render correspondence on the same '
-           '652 inputs are added once the parser model covers the whole inline grammar (DESIGN.md C02)']
+           'repository\'s vendored copy; never read from /repo at check time)',
+           'kernel evaluation (decide +kernel) of the model on the corpus: Lean kernel reduction, no axioms']
+ASSUMPTIONS = ['the theorem is about the Lean model; it is about the code to the extent of the doc / corpus.run '
+               'correspondence (exhaustive on the corpus itself, sampled on mutations)']
+PARTIAL = []
 
 
 def run_example(e):
@@ -50,7 +68,27 @@ def finding_still_fails(finding):
 
 
 def units(ctx):
-    pass
+    spec = gen_docs.spec_examples()
+    # the data the theorem quantifies over
+    dump = driver_batch([{'op': 'corpus.dump'}])[0]
+    want = [{'example': e['example'], 'markdown': e['markdown'], 'html': e['html']} for e in sorted(spec, key=lambda e: e['example'])]
+    ctx.compare('corpus.data', {'examples': len(want)}, dump, want)
+    # the function the theorem evaluates, against the real renderer
+    outs = driver_batch([{'op': 'corpus.run', 'text': e['markdown']} for e in spec])
+    for e, m in zip(spec, outs):
+        try:
+            real = impl.parse_render('HtmlRenderer', {'html_escape_double_quotes': True}, e['markdown'])[1]
+        except Exception as ex:
+            real = {'raises': type(ex).__name__}
+        ctx.compare('corpus.run', {'example': e['example'], 'markdown': e['markdown']}, m, real, kind=e['section'])
+    # token tree + HTML under the HTML option sets, corpus and mutations
+    texts = [e['markdown'] for e in spec]
+    html_cfgs = doc_units.CONFIGS[:3]
+    for cfg in html_cfgs:
+        doc_units.run(ctx, texts, unit='doc', configs=[cfg])
+    rng = ctx.rng('mut')
+    muts = [gen_docs.mutate(rng, rng.choice(texts)) for _ in range(ctx.budget(1500, 20000))]
+    doc_units.run(ctx, muts, unit='doc.mutations', configs=html_cfgs)
 
 
 def explore(ctx, seeds):
